@@ -5,7 +5,7 @@ definition is driven through every sequence  [first-op] ; [redefinition] ; last-
 the last call must be the same term, entry by entry (z3 identity), as on a twin object that has the final definition and
 is asked for the last quantity FIRST.  An exception on the fresh twin violates 'each quantity can be requested first'.
 Caller-supplied arrays are compared by identity and content before/after every call."""
-import json, itertools, traceback
+import json, itertools, traceback, zlib
 import numpy as np
 import z3
 from fractions import Fraction
@@ -166,6 +166,8 @@ def build(cfg, values=None):
         # the linear matrices were evaluated (harness shared with C16)
         from . import c16
         return c16.build(dict(cfg, variant='split'), values)
+    if cfg.get('bay'):
+        return build_bay(cfg, values)
     model, m, n = cfg['model'], cfg['m'], cfg['n']
     first, redef, last = cfg['first'], cfg['redef'], cfg['last']
     w = World(values, cfg.get('seed', 0))
@@ -212,6 +214,50 @@ def build(cfg, values=None):
     return obs, [], info
 
 
+BAY_REDEF = {'none': {}, 'bb': {'bb0': 'bb0_new'}, 'bf': {'bf0': 'bf0_new'}, 'mu_s': {'mu_s0': 'mu_s0_new'}, 'bt': {'bt0': 'bt0_new'}, 'ft': {'ft0': 'ft0_new'}}
+
+
+def build_bay(cfg, values=None):
+    """stiffened bay: first-op ; redefinition of a stiffener attribute ; last-op  ==  a bay built from the start with the final
+    definition and asked for the last quantity first"""
+    from . import c13
+    from ..panelsym import PanelCtx
+    ctx = PanelCtx(values=values, seed=cfg.get('seed', 0))
+    obs = []
+    first, redef, last = cfg['first'], cfg['redef'], cfg['last']
+    pol = c13.BayPolicy()
+    with ctx.shadow(extra_stubs=c13.stiff_stubs(ctx), policy=pol):
+        def loads(bay, comps):
+            for p in bay.panels:
+                p.Nxx, p.Nyy, p.Nxy = ctx.V('Nxx'), ctx.V('Nyy'), ctx.V('Nxy')
+            for kind, s in comps:
+                if kind == 'B1':
+                    s.Fx = ctx.V('Fx0')
+        bay, comps = c13.make_bay(ctx, cfg)
+        loads(bay, comps)
+        if first != '-':
+            getattr(bay, 'calc_' + first)(silent=True)
+        kind, s = comps[0]
+        for old, new in BAY_REDEF[redef].items():
+            attr = {'bb0': 'bb', 'bf0': 'bf', 'mu_s0': 'mu'}.get(old)
+            if attr is not None:
+                setattr(s, attr, ctx.V(new))
+            elif old == 'bt0':
+                s.bplyts = [ctx.V(new)]
+            elif old == 'ft0':
+                s.fplyts = [ctx.V(new), ctx.V(new)]
+        r_hist = flat(getattr(bay, 'calc_' + last)(silent=True), last)
+        bay2, comps2 = c13.make_bay(ctx, dict(cfg, rename=BAY_REDEF[redef]), stacks={q: s_._verif_stacks for q, (_, s_) in enumerate(comps)})
+        loads(bay2, comps2)
+        r_fresh = flat(getattr(bay2, 'calc_' + last)(silent=True), last)
+        for k in sorted(set(r_hist) | set(r_fresh)):
+            a, b = r_hist.get(k, 0), r_fresh.get(k, 0)
+            if isinstance(a, (int, float, Fraction, Sym, np.integer, np.floating)) and isinstance(b, (int, float, Fraction, Sym, np.integer, np.floating)):
+                obs.append(('%s' % k if '[' in k else '%s[]' % k, a, b))
+    info = {'values': {k: str(v) for k, v in ctx.used_values.items()}, 'stats': {}}
+    return obs, [], info
+
+
 def configs(tier, seed):
     out = []
     quick = tier == 'quick'
@@ -223,7 +269,7 @@ def configs(tier, seed):
         mops = [o for o in ops if not (model == 'plate_w' and o in ('calc_fint', 'calc_kT', 'strain', 'stress', 'calc_fext'))]
         for last in mops:
             out.append({'model': model, 'm': 2, 'n': 1, 'first': '-', 'redef': 'none', 'last': last, 'group': 'fresh-first:%s' % model})
-            firsts = mops if not quick else [o for o in mops if (hash((o, last, seed)) % 3 == 0) or o in ('calc_k0', last)]
+            firsts = mops if not quick else [o for o in mops if (zlib.crc32(('%s;%s;%d' % (o, last, seed)).encode()) % 3 == 0) or o in ('calc_k0', last)]
             for first in firsts:
                 out.append({'model': model, 'm': 2, 'n': 1, 'first': first, 'redef': 'none', 'last': last, 'group': 'pair:%s' % model})
             for redef in ('mu', 'a', 'Nxx', 'lam', 'offset', 'flag'):
@@ -234,8 +280,15 @@ def configs(tier, seed):
         c['variant'] = '%s;%s;%s' % (c['first'], c['redef'], c['last'])
     for model in ('clpt_donnell_bc1', 'fsdt_donnell_bc1', 'fsdt_donnell_bc4'):
         for cone in (True, False):
-            out.append({'shell': True, 'model': model, 'mn': (1, 1, 1), 's': 1, 'cone': cone, 'm': 1, 'n': 1, 'variant': 'shell-repeated-evaluation',
+            out.append({'shell': True, 'model': model, 'mn': (2, 2, 1), 's': 1, 'cone': cone, 'm': 2, 'n': 1, 'variant': 'shell-repeated-evaluation',
                         'group': 'shell-repeated-evaluation:%s' % model, 'first': '-', 'redef': 'none', 'last': '_calc_linear_matrices', 'timeout_ms': 180000})
+    # stiffened bay with a 1-D blade stiffener (base + flange): redefinition of stiffener attributes between two evaluations
+    st = [('B1', {'base': True})]
+    for last in ('k0', 'kM', 'kG0'):
+        for redef in (('bb', 'mu_s', 'bf') if quick else ('none', 'bb', 'bf', 'mu_s', 'bt', 'ft')):
+            for first in sorted({last, 'k0'}):
+                out.append({'bay': True, 'stiffeners': st, 'm': 2, 'n': 1, 'first': first, 'redef': redef, 'last': last, 'variant': 'bay:%s;%s;%s' % (first, redef, last),
+                            'group': 'bay-redefinition-%s:bladestiff1d' % redef, 'timeout_ms': 180000})
     out[1]['canary'] = True
     return out
 
@@ -248,10 +301,12 @@ def main():
         'the final definition asked for that quantity first; exceptions on the fresh twin and modified caller arrays are violations.'))
     run.encoded('compmech/panel/_panel.py', 'Panel.* (public evaluation methods)')
     cf = configs(run.tier, run.seed)
-    run.bounds = {'history_length': '<= 2 calls + 1 redefinition', 'alphabet': sorted({c['last'] for c in cf}), 'redefinitions': sorted(REDEF), 'models': sorted({str(c['model']) for c in cf}),
+    run.bounds = {'history_length': '<= 2 calls + 1 redefinition', 'alphabet': sorted({c['last'] for c in cf}), 'redefinitions': sorted(REDEF), 'models': sorted({str(c.get('model', 'stiffened bay (BladeStiff1D)')) for c in cf}),
                   'configurations': len(cf)}
     run.assume('series orders m=2, n=1', 'eigen-solvers stubbed: the matrices handed to the solver are the observable', 'thread-count independence: only what is arithmetic (chunk partitions, C11)')
     run.encoded('compmech/conecyl/conecyl.py', 'ConeCyl._calc_linear_matrices (repeated evaluation)')
+    run.encoded('compmech/stiffpanelbay/stiffpanelbay.py', 'StiffPanelBay.calc_k0, calc_kG0, calc_kM (after re-definition of a stiffener)')
+    run.encoded('compmech/stiffener/bladestiff1d.py', 'BladeStiff1D._rebuild, calc_k0, calc_kG0, calc_kM')
     run.outside = ['OpenMP races', 'ConeCyl histories beyond repeated evaluation of the linear matrices', 'plotting', 'histories longer than the bound']
     res = pmap(kprop.job, [(__name__, c) for c in cf])
     for r in res:
